@@ -78,8 +78,9 @@ def generate(combos):
     names = []
     for i, c in enumerate(combos):
         m, k = c["mech"], c["k"]
-        logger = {"ev": "r.plain()", "evk": "r.plain()", "ctx": "r.ctx()", "ctxcount": "r.ctxCount(%d)" % (2 + k), "evskipframe": "r.ctx()", "evskipchain": "r.ctx()", "global": "r.ctx()"}[m]
-        pre = "zerolog.CallerSkipFrameCount = %d; " % (2 + k) if m == "global" else ""
+        logger = {"ev": "r.plain()", "evk": "r.plain()", "ctx": "r.ctx()", "ctxcount": "r.ctxCount(%d)" % (2 + k), "ctxpinned": "r.ctxCount(%d)" % (2 + k), "evskipframe": "r.ctx()", "evskipchain": "r.ctx()", "global": "r.ctx()"}[m]
+        pre = "zerolog.CallerSkipFrameCount = %d; " % (2 + k) if m in ("global", "ctxpinned") else ""
+        post = "zerolog.CallerSkipFrameCount = 2" if m == "ctxpinned" else ""   # the global changes between construction and use
         stmt = statement(c)
         combo = json.dumps(c).replace('"', '\\"')
         name = "case%d" % i
@@ -88,6 +89,8 @@ def generate(combos):
         out.append('\tr.other = "%s"' % c["other"])
         out.append("\t%sl := %s" % (pre, logger))
         out.append("\t_ = l")
+        if post:
+            out.append("\t" + post)
         panics = c["entry"] == "Panic"          # Panic() panics after writing: recover on the spot, the site is unchanged
         if k == 0 and panics:
             out.append('\t_, f, ln, _ := runtime.Caller(0); func() { defer func() { recover() }(); %s }(); r.done(%d, "%s", f, ln)' % (stmt, i, combo))
